@@ -377,6 +377,133 @@ fn mutate(doc: &[u8], kind: u8, pos: u16, byte: u8) -> Vec<u8> {
     d
 }
 
+/// Fault TRANSITIONS under a live context: the optional files and the user directory come and go while the context
+/// lives, and "re-loading the configuration keeps working" after each change: after every update-engine (idle) the
+/// context must behave like a context created at that moment over the same directory state (unreadable = absent).
+/// No learning commits here (what a failed save may lose is judged by the other parts).
+#[derive(Clone, Debug, serde::Serialize, serde::Deserialize)]
+pub enum Trans {
+    /// write a healthy auto-correct document (modification time advances)
+    WriteAc(u8),
+    /// write damaged bytes (truncated document / wrong shape), modification time advances
+    DamageAc(u8),
+    /// remove the auto-correct file, remembering content and modification time
+    RemoveAc,
+    /// put the removed file back untouched (same content, same modification time)
+    RestoreAc,
+    /// rename the whole user directory away / back (untouched)
+    DirAway,
+    DirBack,
+}
+
+const T_DOCS: &[&str] = &[
+    "{\"qxk\":\"dhaka\",\"abc\":\"kkk\"}",
+    "{\"abc\":\"ttt\",\"amar\":\"amader\"}",
+    "{\"onno\":\"Onyo\",\"qxk\":\"kolkata\"}",
+    "{}",
+];
+const T_BAD: &[&str] = &["{\"qxk\":\"dha", "[1,2]", "", "{\"abc\":5}", "\u{feff}{\"abc\":\"kkk\"}"];
+const T_PROBES: &[&str] = &["qxk", "abc", "amar", "onno", "abcgulo", "ami"];
+
+pub fn check_transitions(steps: &[(Trans, bool)], english: bool, st: &mut Stats) -> Result<(), Failure> {
+    use std::time::{Duration, UNIX_EPOCH};
+    let case = || json!({"transitions": steps, "english": english});
+    let pf = |p: PanicInfo| Failure::new(format!("transition:{}", panic_kind(&p)), p.to_string(), case());
+    let sb = Sandbox::new();
+    let mut opts = Opts::parse("s");
+    opts.english = english;
+    let ac = sb.autocorrect_file();
+    let away = sb.base().join("moved-away");
+    let mut clock: u64 = 2_000_000;
+    let write = |bytes: &[u8], clock: &mut u64| {
+        if sb.user_dir().is_dir() {
+            std::fs::write(&ac, bytes).expect("write autocorrect");
+            *clock += 10;
+            let f = std::fs::File::options().write(true).open(&ac).expect("open autocorrect");
+            f.set_modified(UNIX_EPOCH + Duration::from_secs(*clock)).expect("set mtime");
+        }
+    };
+    write(T_DOCS[0].as_bytes(), &mut clock);
+    let mut live = Ctx::new_at(opts, sb.base()).map_err(pf)?;
+    let mut removed: Option<(Vec<u8>, std::time::SystemTime)> = None;
+    let mut kinds = BTreeSet::new();
+    for (i, (t, update)) in steps.iter().enumerate() {
+        match t {
+            Trans::WriteAc(k) => write(T_DOCS[*k as usize % T_DOCS.len()].as_bytes(), &mut clock),
+            Trans::DamageAc(k) => write(T_BAD[*k as usize % T_BAD.len()].as_bytes(), &mut clock),
+            Trans::RemoveAc => {
+                if let (Ok(b), Ok(m)) = (std::fs::read(&ac), std::fs::metadata(&ac).and_then(|m| m.modified())) {
+                    removed = Some((b, m));
+                    std::fs::remove_file(&ac).expect("remove");
+                    kinds.insert("remove");
+                }
+            }
+            Trans::RestoreAc => {
+                if let (Some((b, m)), false, true) = (&removed, ac.exists(), sb.user_dir().is_dir()) {
+                    std::fs::write(&ac, b).expect("restore");
+                    std::fs::File::options().write(true).open(&ac).expect("open").set_modified(*m).expect("set mtime");
+                    removed = None;
+                    kinds.insert("restore");
+                }
+            }
+            Trans::DirAway => {
+                if sb.user_dir().is_dir() && !away.exists() {
+                    std::fs::rename(sb.user_dir(), &away).expect("rename away");
+                    kinds.insert("dir-away");
+                }
+            }
+            Trans::DirBack => {
+                if away.is_dir() && !sb.user_dir().exists() {
+                    std::fs::rename(&away, sb.user_dir()).expect("rename back");
+                    kinds.insert("dir-back");
+                }
+            }
+        }
+        if !*update {
+            continue;
+        }
+        live.update(opts, &sb).map_err(pf)?;
+        let fresh = Ctx::new_at(opts, sb.base()).map_err(pf)?;
+        for w in T_PROBES {
+            let mut sel = 0u8;
+            for ch in w.chars() {
+                let a = live.ch(ch, sel).map_err(pf)?;
+                let b = fresh.ch(ch, sel).map_err(pf)?;
+                st.evals(1);
+                if a != b {
+                    return Err(Failure::new(
+                        "reload-after-fault-transition-differs-from-new-context",
+                        format!("after transition #{i} ({t:?}) and update-engine: typing {w:?}, at {ch:?} the live context returns {} but a context created now returns {}", a.short(), b.short()),
+                        case(),
+                    ));
+                }
+                sel = if a.lonely { 0 } else { a.sel.min(255) as u8 };
+            }
+            live.finish().map_err(pf)?;
+            fresh.finish().map_err(pf)?;
+        }
+    }
+    if kinds.contains("restore") || kinds.contains("dir-back") {
+        st.label("file-or-directory-came-back-untouched");
+    }
+    if kinds.len() >= 2 {
+        st.nontrivial(hash_of(&format!("{steps:?}{english}")), || json!({"transitions": steps}));
+    }
+    Ok(())
+}
+
+fn trans_strategy() -> impl Strategy<Value = (Vec<(Trans, bool)>, bool)> {
+    let t = prop_oneof![
+        2 => any::<u8>().prop_map(Trans::WriteAc),
+        2 => any::<u8>().prop_map(Trans::DamageAc),
+        2 => Just(Trans::RemoveAc),
+        3 => Just(Trans::RestoreAc),
+        2 => Just(Trans::DirAway),
+        3 => Just(Trans::DirBack),
+    ];
+    (proptest::collection::vec((t, proptest::bool::weighted(0.75)), 2..8), any::<bool>())
+}
+
 pub fn run(run: &Run) {
     let n_hist = run.tier.pick(40, 600);
     let stores = collect_stores(n_hist, run.seed);
@@ -451,12 +578,18 @@ pub fn run(run: &Run) {
             },
         );
     }
+    run.sharded("fault-transitions-under-a-live-context", 16, run.tier.pick(60, 1500), 200, trans_strategy, |_| (), |(steps, english): &(Vec<(Trans, bool)>, bool), st, _| check_transitions(steps, *english, st));
+    run.require_label("file-or-directory-came-back-untouched", 50);
     run.require_label("unreadable-compared-with-absent", 100);
     run.require_label("directory-fault", 5);
     run.require_label("late-injection-before-update-engine", 100);
 }
 
 pub fn replay(_run: &Run, case: &Value) -> Result<(), Failure> {
+    if case.get("transitions").is_some() {
+        let steps: Vec<(Trans, bool)> = serde_json::from_value(case["transitions"].clone()).unwrap_or_default();
+        return check_transitions(&steps, case["english"].as_bool().unwrap_or(false), &mut Stats::new());
+    }
     let with_data = case["with_data"].as_bool().unwrap_or(true);
     if case["late_injection"].as_bool() == Some(true) {
         let bytes: Vec<u8> = serde_json::from_value(case["bytes"].clone()).unwrap_or_default();
